@@ -9,6 +9,7 @@ import (
 	"github.com/shutter-network/shutter/shlib/shcrypto"
 
 	obskeyperdatabase "github.com/shutter-network/rolling-shutter/rolling-shutter/chainobserver/db/keyper"
+	"github.com/shutter-network/rolling-shutter/rolling-shutter/keyperimpl/gnosis"
 	"github.com/shutter-network/rolling-shutter/rolling-shutter/p2pmsg"
 	"github.com/shutter-network/rolling-shutter/rolling-shutter/shdb"
 )
@@ -61,7 +62,8 @@ func H_C05_accessnode_keys() {
 	case 2:
 		msg.Extra = &p2pmsg.DecryptionKeys_Service{Service: &p2pmsg.ShutterServiceDecryptionKeysExtra{}}
 	}
-	h := NewDecryptionKeysHandler(&Config{InstanceID: vfU64("own-instance"), MaxNumKeysPerMessage: vfU64("maxkeys")}, st)
+	ownInstance, maxKeys := vfU64("own-instance"), vfU64("maxkeys")
+	h := NewDecryptionKeysHandler(&Config{InstanceID: ownInstance, MaxNumKeysPerMessage: maxKeys}, st)
 	_ = msg.Validate()
 	_ = msg.LogInfo()
 	res, _ := h.ValidateMessage(context.Background(), msg)
@@ -70,6 +72,21 @@ func H_C05_accessnode_keys() {
 		return
 	}
 	vfReach("accepted")
+	// C06/C04 at the level of the access node: accepted means instance, key count, eon key and the
+	// signature kernel against the keyper set stored for the message's own eon all agree
+	ks, haveSet := st.GetKeyperSet(msg.Eon)
+	_, haveKey := st.GetEonKey(msg.Eon)
+	vfAssert(haveSet && haveKey, "eon-key-and-keyper-set-of-the-message-eon-are-known")
+	vfAssert(msg.InstanceId == ownInstance && len(msg.Keys) > 0 && uint64(len(msg.Keys)) <= maxKeys, "instance-and-key-count-checked")
+	if haveSet {
+		ex, isGnosis := msg.Extra.(*p2pmsg.DecryptionKeys_Gnosis)
+		vfAssert(isGnosis && ex.Gnosis != nil, "gnosis-extra-present")
+		if isGnosis && ex.Gnosis != nil {
+			basic, _ := gnosis.ValidateDecryptionKeysBasic(msg)
+			ref, _ := gnosis.ValidateDecryptionKeysSignatures(msg, ex.Gnosis, ks)
+			vfAssert(basic == pubsub.ValidationAccept && ref == pubsub.ValidationAccept, "accepted-keys-message-carries-a-threshold-of-genuine-signatures")
+		}
+	}
 	out, err := h.HandleMessage(context.Background(), msg)
 	vfAssert(err == nil && len(out) == 0, "access-node-emits-nothing")
 }
